@@ -103,7 +103,7 @@ def judge_factory(R, case):
         reachable = any(rw.roles.get(h) == "main" for h in rw.hosts)
         if fin and not fin.get("closed") and not fin.get("connected") and reachable:
             last_auth = bool(runs) and runs[-1]["exc"] == "AuthenticationError" and runs[-1] is tr.runs[-1]
-            trigger_after = last_auth and any(t > runs[-1]["end"] + EPS for t in tr.triggers)
+            trigger_after = last_auth and any(t > runs[-1]["end"] + EPS for t in tr.strong_triggers)
             if not last_auth or trigger_after:
                 R.fail("C10.gave-up", f"pairing open, accessory healthy for 200 s, still not connected at t={end_time}; attempts "
                        f"{[(a['n'], round(a['start'], 2), a['exc']) for a in tr.attempts][-6:]}; connector alive: {fin.get('connector_alive')} {ctxs}",
@@ -154,7 +154,8 @@ def judge_factory(R, case):
                     return
         epochs = tr.advertised + [(float("inf"), [])]
         for (t_a, hosts), (t_b, _) in zip(epochs, epochs[1:]):
-            fa = [a for a in atts if t_a - EPS <= a["start"] < t_b - EPS]
+            # attempts that start at the very instant of a discovery update are ambiguous (before or after it?) and are left out
+            fa = [a for a in atts if (t_a + EPS < a["start"] or t_a == 0.0 and not any(abs(tt) <= EPS for tt, _ in tr.advertised[1:])) and a["start"] < t_b - EPS]
             w = 2 * len(hosts) + 2
             seq = []
             for a in fa:
